@@ -33,7 +33,7 @@ const (
 // the tree the generation model describes: tunnox-core with patches/C04-1..3.
 // VERIF_C04_MODEL=asfound generates from the as-found model instead (development aid: the
 // [binding] line then compares the real code with the model of the tree before the patches).
-const patched = `{"validateJoin", "secretValidity", "bindMapping"}`
+const patched = `{"validateJoin", "secretValidity", "bindMapping", "bindMappingPoll"}`
 
 var fixes = func() string {
 	if os.Getenv("VERIF_C04_MODEL") == "asfound" {
@@ -86,6 +86,11 @@ type party struct {
 	d    *srvkit.Duplex
 	ack  string
 	mark string
+	// a request whose HandlePacket is still running (late cells: it polls the routing table)
+	pending chan error
+	ev      fw.Event
+	st      stepT
+	before  srvkit.BridgeView
 }
 
 type world struct {
@@ -93,8 +98,10 @@ type world struct {
 	tun     map[string]*srvkit.Tunnels
 	xn      []*srvkit.CrossNode
 	cl      map[string]client // L, T, X, X2
-	m, m2   string            // mapping ids
+	m, m2   string            // mapping ids: M (L -> T), M2 (X -> X2)
+	m3      string            // M3 (X2 -> X): the stranger is its target
 	secret  string
+	secret3 string
 	parties map[string]*party
 	order   []string
 	nconn   int
@@ -109,7 +116,7 @@ func (w *world) close() {
 	}
 }
 
-func newWorld(twoNodes, keyless bool) (*world, error) {
+func newWorld(twoNodes, crossNode, keyless bool) (*world, error) {
 	w := &world{nodes: map[string]*srvkit.Server{}, tun: map[string]*srvkit.Tunnels{}, cl: map[string]client{}, parties: map[string]*party{}}
 	a, err := srvkit.NewServer(srvkit.Options{NodeID: "node-A"})
 	if err != nil {
@@ -125,7 +132,12 @@ func newWorld(twoNodes, keyless bool) (*world, error) {
 		}
 		w.nodes["B"] = b
 		w.tun["B"] = b.EnableTunnels()
+	}
+	if twoNodes || crossNode {
 		for _, n := range []string{"A", "B"} {
+			if w.nodes[n] == nil {
+				continue
+			}
 			x, err := w.nodes[n].EnableCrossNode()
 			if err != nil {
 				w.close()
@@ -165,7 +177,13 @@ func newWorld(twoNodes, keyless bool) (*world, error) {
 		w.close()
 		return nil, err
 	}
-	w.m, w.m2 = m.ID, m2.ID
+	w.secret3 = srvkit.NewSecret()
+	m3, err := w.tun["A"].CreateMapping(w.cl["X2"].id, w.cl["X"].id, w.secret3)
+	if err != nil {
+		w.close()
+		return nil, err
+	}
+	w.m, w.m2, w.m3 = m.ID, m2.ID, m3.ID
 	return w, nil
 }
 
@@ -236,6 +254,8 @@ func (w *world) request(cred string) *packet.TunnelOpenRequest {
 	case "nothing":
 	case "otherId":
 		r.MappingID = w.m2
+	case "otherSecret":
+		r.MappingID, r.SecretKey = w.m3, w.secret3
 	}
 	return r
 }
@@ -247,7 +267,7 @@ func (w *world) bridge() (node, mapping string, v srvkit.BridgeView) {
 		if s == nil {
 			continue
 		}
-		for _, m := range []struct{ name, id string }{{"M", w.m}, {"M2", w.m2}} {
+		for _, m := range []struct{ name, id string }{{"M", w.m}, {"M2", w.m2}, {"M3", w.m3}} {
 			if b := s.Bridge(m.id); b.Exists && b.TunnelID == tunnelID {
 				return n, m.name, b
 			}
